@@ -10,13 +10,13 @@ Open Scope Z_scope.
 Definition bump (c : conn) : conn := c <| c_dropped := c_dropped c + 1 |>.
 
 (* d is authentic for key k: its body was sealed under k together with the very header d
-   carries (nonce = first 12 header bytes, AAD = all 20), and the length field is the payload's *)
+   carries (nonce = first 12 header bytes, AAD = all 20 — length, count and type included) *)
 Definition authentic (k : Z) (d : dgram) : Prop :=
-  exists p, d_body d = Sealed k (d_hdr d) p /\ h_len (d_hdr d) = len p.
+  exists p, d_body d = Sealed k (d_hdr d) p.
 
 Definition authenticb (k : Z) (d : dgram) : bool :=
   match d_body d with
-  | Sealed k' sh p => (k =? k') && header_eqb sh (d_hdr d) && (h_len (d_hdr d) =? len p)
+  | Sealed k' sh p => (k =? k') && header_eqb sh (d_hdr d)
   | _ => false
   end.
 
